@@ -126,6 +126,11 @@ PROPS["C10"] = {
 }
 OP_PROPS["conc.round"] = ["C10"]
 OP_PROPS["gmap.ops"] = ["C18"]
+OP_PROPS["upd.mode"] = ["C20"]
+OP_PROPS["upd.sync"] = ["C20"]
+OP_PROPS["upd.conv"] = ["C08", "C20"]
+PROPS["C20"]["domains"].append({"name": "mv", "n_quick": 800, "n_thorough": 20000})
+PROPS["C20"]["assumptions"] = ["identity converter with versions lost / failing mid-history (upd), and a lossless field-renaming converter over three versions (mv); the model's renaming converter assumes the converted object is valid in the target type (losslessness)"]
 PROPS["C18"] = {
     "domains": [{"name": "rfl", "n_quick": 2500, "n_thorough": 60000},
                 {"name": "val", "n_quick": 1500, "n_thorough": 30000}],
